@@ -193,7 +193,12 @@ func (p *Pipe) CloseWrite() {
 
 // CloseRead closes the reading side: pending and later writes fail, pending reads fail.
 func (p *Pipe) CloseRead() {
+	g := GoID()
 	p.mu.Lock()
+	if p.S != nil && !p.rclosed {
+		// logged under the pipe's lock: atomic with the close taking effect
+		p.S.Emit(g, "t."+p.Name+".rclose", map[string]any{})
+	}
 	p.rclosed = true // fragments in flight stay: a writer still waiting for them to be taken fails
 	p.cond.Broadcast()
 	p.mu.Unlock()
@@ -211,10 +216,6 @@ type ReadEnd struct{ P *Pipe }
 
 func (r ReadEnd) Read(b []byte) (int, error) { return r.P.Read(b) }
 func (r ReadEnd) Close() error {
-	g := GoID()
-	if r.P.S != nil {
-		r.P.S.Emit(g, "t."+r.P.Name+".rclose", map[string]any{})
-	}
 	r.P.CloseRead()
 	return nil
 }
